@@ -406,7 +406,10 @@ impl Engine for E4 {
         let flat_world = w.one_in(4);
         cfg.flat = flat_world;
         cfg.n_min = 1;
-        cfg.n_max = if tier == Tier::Thorough { *w.pick(&[40usize, 200, 1500]) } else { 40 };
+        cfg.n_max = if crate::common::long_run(seed, tier) { if tier == Tier::Thorough { 1200 } else { 600 } } else if tier == Tier::Thorough { *w.pick(&[40usize, 200, 1500]) } else { 40 };
+        if crate::common::long_run(seed, tier) {
+            cfg.n_min = 300;
+        }
         let dataset = gen_dataset(&mut w, "fake", &cfg, &mut st);
         let path = if w.one_in(4) { Path::Json } else { Path::Direct };
         let single = w.one_in(2);
